@@ -177,15 +177,15 @@ class Schema:
         for t in sorted(self.types, key=lambda t: t["name"].lower()):
             n, b = t["name"].lower(), t["body"]
             if b[0] == "enum":
-                L.append(f"TYPE {n} ft=ENUMERATION ref=NULL items=" + ",".join(i.lower() for i in b[1]))
+                L.append(f"TYPE {n} ft=ENUMERATION ref=NULL{self.g_line(('N', t['name']))} items=" + ",".join(i.lower() for i in b[1]))
             elif b[0] == "select":
-                L.append(f"TYPE {n} ft=SELECT ref=NULL members=" + ",".join(self.spec_ref(m) for m in b[1]))
+                L.append(f"TYPE {n} ft=SELECT ref=NULL{self.g_line(('N', t['name']))} members=" + ",".join(self.spec_ref(m) for m in b[1]))
             else:
                 tr = b[1]
                 if tr[0] == "B":
-                    L.append(f"TYPE {n} ft={tr[1]} ref={tr[1]}")
+                    L.append(f"TYPE {n} ft={tr[1]} ref={tr[1]}{self.g_line(('N', t['name']))}")
                 elif tr[0] == "A":
-                    L.append(f"TYPE {n} ft={tr[1]} aggr={self.spec_aggr(tr)} ref={self.spec_ref(tr[6])}")
+                    L.append(f"TYPE {n} ft={tr[1]} aggr={self.spec_aggr(tr)} ref={self.spec_ref(tr[6])}{self.g_line(('N', t['name']))}")
                 else:
                     r = self.resolve(tr[1])["body"]
                     extra = ""
@@ -193,8 +193,53 @@ class Schema:
                         extra = " items=" + ",".join(i.lower() for i in r[1])
                     elif r[0] == "select":
                         extra = " members=" + ",".join(self.spec_ref(m) for m in r[1])
-                    L.append(f"TYPE {n} ft=REF ref=@{tr[1].lower()}{extra}")
+                    L.append(f"TYPE {n} ft=REF ref=@{tr[1].lower()}{self.g_line(('N', t['name']))}{extra}")
         return L
+
+    # what the getters that follow referent links must answer for a type expression
+    def g_root(self, tr):
+        """(fundamental type name, rendered descriptor) of the first non-reference descriptor"""
+        if tr[0] == "B":
+            return tr[1], tr[1]
+        if tr[0] == "E":
+            return "ENTITY", "#" + tr[1].lower()
+        if tr[0] == "A":
+            return tr[1], self.spec_ref(tr)
+        t = self.resolve(tr[1])
+        b = t["body"]
+        if b[0] == "enum":
+            return "ENUMERATION", "@" + t["name"].lower()
+        if b[0] == "select":
+            return "SELECT", "@" + t["name"].lower()
+        if b[1][0] == "A":
+            return b[1][1], "@" + t["name"].lower()
+        return b[1][1], "@" + t["name"].lower()       # simple
+
+    def g_base(self, tr):
+        if tr[0] == "B":
+            return tr[1]
+        if tr[0] == "E":
+            return "ENTITY"
+        if tr[0] == "A":
+            return self.g_base(tr[6])
+        t = self.resolve(tr[1])
+        b = t["body"]
+        if b[0] == "enum":
+            return "ENUMERATION"
+        if b[0] == "select":
+            return "SELECT"
+        return self.g_base(b[1])
+
+    def g_line(self, tr):
+        ft, td = self.g_root(tr)
+        out = f" nonref={ft} nonreftd={td} base={self.g_base(tr)}"
+        if ft in KINDS:
+            agg = tr if tr[0] == "A" else self.resolve(tr[1])["body"][1]
+            eft, etd = self.g_root(agg[6])
+            out += f" isaggr=1 elem={eft} elemtd={etd}"
+        else:
+            out += " isaggr=0"
+        return out
 
     def inherit_order(self, n, vis=None):
         vis = [] if vis is None else vis
@@ -364,6 +409,7 @@ class Gen:
                 self.used.discard(n)
         # ---- rename chains of length 1..3 over every underlying kind (TYPE n1 = root; TYPE n2 = n1; TYPE n3 = n2;):
         #      the descriptor of each link must refer to the type it is declared with, not to the end of the chain
+        deep, deep_types = [], []
         if K["rename_chains"]:
             for kind_name, pool in (("simple", simple_named), ("enum", enums), ("select", selects), ("aggregate", aggr_named)):
                 if not pool or r.random() < 0.35:
@@ -371,12 +417,15 @@ class Gen:
                 if kind_name == "enum" and not K["renamed_enum"] or kind_name == "select" and not K["renamed_select"]:
                     continue
                 prev = r.choice(pool)
-                length = r.randint(1, 3)
+                # depth is a dimension of its own: short chains, the boundary around 8/9/10 links, and a long one
+                length = r.choice([1, 2, 3, 1, 2, 3, 8, 9, 10, 40] if K.get("deep_chains", True) else [1, 2, 3])
+                deep.append((kind_name, length))
                 for _ in range(length):
                     n = self.ident(kw if r.random() < 0.2 else None)
                     s.types.append(dict(name=n, body=("alias", ("N", prev))))
                     pool.append(n)
                     prev = n
+                deep_types.append(prev)
                 s.tags.add(f"rename_chain_{kind_name}_{length}")
                 if kind_name == "enum":
                     s.tags.add("renamed_enum")
@@ -433,6 +482,10 @@ class Gen:
                     e["attrs"].append(dict(name=a["name"], redecl=m, kind="E", opt=False, type=a["type"], inv=None))
                 s.tags.add("redeclared")
             s.entities.append(e)
+        # an attribute of the deepest type of every rename chain, on an entity that stays instantiable (the last one has no
+        # subtypes): its value goes through the generated mutator/accessor and through STEPattribute
+        for tn in deep_types:
+            s.entities[-1]["attrs"].append(dict(name=self.ident(), redecl=None, kind="E", opt=r.random() < 0.3, type=("N", tn), inv=None))
         # inverse attributes: entity X gets `inv : SET OF Y FOR attr` where Y.attr : X
         for e in s.entities:
             for a in list(e["attrs"]):
